@@ -172,6 +172,12 @@ def run_shard(spec, ctx):
                 elif p == "noise_std" and "y_x_model" in S:
                     per_ft = got.size > 1
                     want, tag = M.noise_std(y, mask, S["y_x_model"], S["model_x_model"], per_ft), ("noise_diagonal" if per_ft else "noise_scalar")
+                    # float32 cancellation in sum(y^2 - 2 y.model + model^2): the statistics are float32 products (relative error 6e-8 each)
+                    # and the residual variance may be orders of magnitude below the terms (nearly noise-free data)
+                    yxm_, mxm_ = np.abs(M.f64(S["y_x_model"])[0]), np.abs(M.f64(S["model_x_model"])[0])
+                    mag = np.where(mask, y ** 2 + 2 * yxm_ + mxm_, 0.0)
+                    mag = mag.sum(axis=(0, 1)) / np.maximum(mask.sum(axis=(0, 1)), 1) if per_ft else mag.sum() / max(mask.sum(), 1)
+                    extra_atol = float(np.max(4 * 6e-8 * mag / (2 * np.maximum(np.asarray(want), 1e-6))))
                 elif p == "probs" and is_mix and rec.get("nll_regul_ind_sum_ind") is not None:
                     r = M.responsibilities(rec["nll_regul_ind_sum_ind"])
                     want, tag = r.mean(axis=0), "mixture_probs"
@@ -249,5 +255,49 @@ def run_shard(spec, ctx):
             except Exception as e:
                 ctx.count("direct_mstep_skipped")
                 ctx.note(f"direct_mstep_skipped_{type(e).__name__}", str(e)[:200])
+        # ---- direct M-steps on nearly collapsed states (every kind but the mixture): dispersions of the individual variables and
+        # residuals around the variance guard of the update rules (1e-5): the step either refuses (convergence error) or returns the
+        # closed form - fits reach that region only on noise-free / very homogeneous cohorts -----------------------------------------
+        if not is_mix and not dead["v"]:
+            from vf.probes.algo import _cp
+            from leaspy.utils.weighted_tensor import WeightedTensor
+
+            y_keep = y
+            for rep in range(3):
+                try:
+                    st = model.state.clone()
+                    with st.auto_fork(None):
+                        if not st.is_variable_set("y"):
+                            model.put_data_variables(st, ds)
+                        n_i = ds.n_individuals
+                        scale = float(10 ** rng.uniform(-3.3, -1.8))  # std 5e-4 .. 1.6e-2: variance 2.5e-7 .. 2.5e-4
+                        for v in sorted(ind):
+                            cur = st[v]
+                            mu = st[f"{v}_mean"] if f"{v}_mean" in st.dag else torch.zeros(())
+                            st[v] = (torch.zeros_like(cur) + mu + scale * torch.tensor(rng.normal(size=tuple(cur.shape)), dtype=cur.dtype)).to(cur.dtype)
+                        if noise and noise.startswith("gaussian") and rep != 1:
+                            # observations = current model values + a tiny residual
+                            yw = st["y"]
+                            mod = st["model"]
+                            mod = mod.value if isinstance(mod, WeightedTensor) else mod
+                            res = float(10 ** rng.uniform(-3.3, -1.8)) * torch.tensor(rng.normal(size=tuple(mod.shape)), dtype=mod.dtype)
+                            newy = torch.where(yw.weight.bool(), mod + res, torch.zeros_like(mod))
+                            st["y"] = WeightedTensor(newy, yw.weight)
+                            y = newy.numpy().astype(np.float64)
+                        burn = True
+                        rec = {"k": 1, "n_burn_in_iter": 1, "burn_in_flag": burn, "params_before": {p_: _cp(st._values[p_]) for p_ in model.parameters_names}}
+                        S = model.compute_sufficient_statistics(st)
+                        rec["S_used"] = {k_: _cp(v_) for k_, v_ in S.items()}
+                        model.update_parameters(st, S, burn_in=burn)
+                        rec["params_after"] = {p_: _cp(st._values[p_]) for p_ in model.parameters_names}
+                        ctx.count("direct_msteps_nearly_collapsed")
+                        on_step(rec, st, dict(case, direct_mstep="nearly collapsed dispersions", scale=scale))
+                except LeaspyConvergenceError:
+                    ctx.count("direct_msteps_refused_by_convergence_guard")
+                except Exception as e:
+                    ctx.count("direct_mstep_skipped")
+                    ctx.note(f"direct_mstep_skipped_{type(e).__name__}", str(e)[:200])
+                finally:
+                    y = y_keep
         if i < 1:
             ctx.sample(case, limit=1)
